@@ -21,7 +21,9 @@ VARIABLES l,        \* index of the next event
 vars == <<l, tms, lasts, allowed, pend, acc>>
 
 EmptyObsTm == [v9 |-> [data |-> <<>>, opts |-> <<>>], ipfix |-> [data |-> <<>>, opts |-> <<>>]]
-TmFor(caches, p) == caches[CHOOSE i \in 1..Len(caches) : caches[i].p = p].tmpl
+\* the harness logs a parser's caches in full only when they differ from what it logged last for that parser
+CacheEntry(caches, p) == caches[CHOOSE i \in 1..Len(caches) : caches[i].p = p]
+TmFor(caches, p) == IF CacheEntry(caches, p).same THEN tms[p] ELSE CacheEntry(caches, p).tmpl
 
 \* one line per finding / coverage record (strings are printed on one line, tuples are wrapped)
 Bool(x) == IF x THEN "T" ELSE "F"
@@ -59,7 +61,7 @@ EvCall == /\ IsEvent("call")
 Isolation(ev, p) ==
   {<<"C06", "cache", "cross-parser", ev.caches[i].p>> :
       i \in {q \in 1..Len(ev.caches) : ev.caches[q].p # p /\ ev.caches[q].p \in DOMAIN tms
-                                        /\ ev.caches[q].tmpl # tms[ev.caches[q].p]}}
+                                        /\ ~ev.caches[q].same /\ ev.caches[q].tmpl # tms[ev.caches[q].p]}}
 
 \* C17: with parse_unknown_fields off, a data set governed by a template that has a field the library
 \* does not know is never reported as decoded records
